@@ -55,6 +55,11 @@ TEXTS = {
     "T-fail-label": "def 0 { a(); jump @nowhere; }",
     "T-fail-break": "def 0 { a(); if ($V == 1) { break; } }",
     "T-fail-parse": "def 0 { a(; }",
+    # a compile that raises INSIDE a loop / a case, and texts with stray loop / case control that must stay rejected afterwards
+    "T-fail-in-loop": "def 0 { forever { foo(); ~nope(); } }",
+    "T-fail-in-case": "def 0 { switch ($S) { case 1: foo(); jump @nowhere2; } }",
+    "T-stray-continue": "def 0 { @a; foo(); continue; }",
+    "T-stray-break": "def 0 { @a; foo(); break; }",
     "T-ssbscript": "//?: is-ssb-script: true\ndef 0 {\n    a(1);\n    @l;\n    Jump(@l);\n}\n",
     "T-coro": "coro A { a(); return; }\ncoro B { alias previous; }",
     # explicit loop / case control statements at every nesting (per-compile handler stacks)
